@@ -30,6 +30,8 @@ pub(crate) fn optimize(
     symbol_list: &SymbolList,
     enabled_modes: FlagSet<EncodationType>,
 ) -> Option<Vec<(usize, EncodationType)>> {
+    #[cfg(datamatrix_verif)]
+    crate::verif_hooks::planner_reset();
     let start_plan = GenericPlan::for_mode(mode, data, written, symbol_list);
 
     let mut plans = Vec::with_capacity(36);
@@ -48,6 +50,8 @@ pub(crate) fn optimize(
         let rest_chars = data.len() - iteration;
         for mut plan in plans.drain(0..) {
             let plan_copy_before_step = plan.clone();
+            #[cfg(datamatrix_verif)]
+            crate::verif_hooks::planner_count_step();
             let result = if let Some(result) = plan.step() {
                 result
             } else {
@@ -82,6 +86,8 @@ pub(crate) fn optimize(
         }
 
         remove_hopeless_cases(&mut new_plan);
+        #[cfg(datamatrix_verif)]
+        crate::verif_hooks::planner_note_live(new_plan.len());
 
         if new_plan.is_empty() {
             return None;
@@ -97,6 +103,8 @@ pub(crate) fn optimize(
                     (p.cost().ceil(), max_enc, p.switches.len())
                 })
                 .unwrap();
+            #[cfg(datamatrix_verif)]
+            crate::verif_hooks::planner_note_cost(plan.cost().ceil().verif_raw());
             plan.switches.push((0, plan.current()));
 
             // Remove a "switch" to ASCII if we are at the very beginning
